@@ -119,5 +119,5 @@ def run_inst(spec, run):
         run.sample({"model": pl.show(model_spec), "via": spec["via"], "path_condition": [str(z3.simplify(c)) for c in ctx.pc][:6],
                     "negation": repr(neg)[:200]})
 
-    st = S.explore(fn, on_path, max_paths=6000, wall=900)
+    st = S.explore(fn, on_path, max_paths=30000, wall=2400)
     return run.result(st)
